@@ -129,7 +129,7 @@ func checkC01(run *h.Run) {
 			name := fmt.Sprintf("%s/%s", router, sp.Name)
 			order = append(order, name)
 			st := runSweep(run, sp, func(w *worker, t rm.Table, p *rm.Parsed, st *sweepStats) {
-				b := rs.Build(t, rs.BuildOpt{Router: router, Filter: true, Longhand: true})
+				b := rs.Build(t, rs.BuildOpt{Router: router, Filter: true, Longhand: true, Reuse: sp.Name == "R2"})
 				if b.Panic != "" {
 					atomic.AddInt64(&st.buildPanics, 1)
 					return // construction failures are C11's and C02's business
@@ -152,15 +152,19 @@ func checkC01(run *h.Run) {
 							continue // panics are C02's oracle
 						}
 						nontriv++
-						if why := judgeC01(p, w.mreqs[qi], router, o, b.Log); why != "" {
-							rc := routingCase{Sweep: sp.Name, Router: router.String(), Table: t, Req: w.reqs[qi], Serve: serve, Filter: true, Longhand: true, Observed: o, Tier: run.Tier, ReqIndex: qi}
+						lgc := b.Log
+						if sp.Name == "R2" {
+							lgc = nil // shared condition closures log under the first route's id
+						}
+						if why := judgeC01(p, w.mreqs[qi], router, o, lgc); why != "" {
+							rc := routingCase{Sweep: sp.Name, Router: router.String(), Table: t, Req: w.reqs[qi], Serve: serve, Filter: true, Longhand: true, Reuse: sp.Name == "R2", Observed: o, Tier: run.Tier, ReqIndex: qi}
 							qi, serve := qi, serve
 							run.ViolateH("unsound-invocation/"+router.String(), "", fmt.Sprintf("[%s serve=%v] %v ; %v : %s", router, serve, t, w.reqs[qi], why), rc, func() bool {
-								b2 := rs.Build(t, rs.BuildOpt{Router: router, Filter: true, Longhand: true})
+								b2 := rs.Build(t, rs.BuildOpt{Router: router, Filter: true, Longhand: true, Reuse: sp.Name == "R2"})
 								o2 := b2.Do(w.reqs[qi].HTTP(), h.NewRec(), serve)
 								return judgeC01(p, w.mreqs[qi], router, o2, b2.Log) != ""
 							}, func() bool {
-								b3 := rs.Build(t, rs.BuildOpt{Router: router, Filter: true, Longhand: true})
+								b3 := rs.Build(t, rs.BuildOpt{Router: router, Filter: true, Longhand: true, Reuse: sp.Name == "R2"})
 								var o3 rs.Outcome
 								for k := 0; k <= qi; k++ {
 									o3 = b3.Do(w.reqs[k].HTTP(), h.NewRec(), serve)
